@@ -162,12 +162,12 @@ theorem ratSum_flatMap_explodeRow (ds : List Rec) :
     simp only [List.flatMap_cons, List.map_append, ratSum_append, ih, explodeRow_amt, List.map_cons]
     simp only [ratSum, List.foldr_cons]
 
-theorem expand_total_amount (cfg : Cfg) (ds : List Rec) (h : cfg.hasAddl = true) :
+theorem expand_total_amount_aux (cfg : Cfg) (ds : List Rec) (h : cfg.hasAddl = true) :
     ratSum ((expand cfg ds).map (·.amt)) = ratSum (ds.map (fun r => r.amt * ((r.addl : Rat) + 1))) := by
   rw [ratSum_perm ((expand_map_fst_perm cfg ds h).map _)]
   exact ratSum_flatMap_explodeRow ds
 
-theorem expand_preserves_records (cfg : Cfg) (ds : List Rec) (h : cfg.hasAddl = true)
+theorem expand_preserves_records_aux (cfg : Cfg) (ds : List Rec) (h : cfg.hasAddl = true)
     (hne : ∀ r ∈ ds, r.expanded = false) :
     ((expand cfg ds).filter (fun r => !r.expanded)).Perm ds := by
   refine ((expand_map_fst_perm cfg ds h).filter _).trans ?_
